@@ -132,3 +132,12 @@ for _e, _n, _d, _s in (('h_key_nizk', 'vtmf_key_nizk', 'key-share NIZK: PublishK
                        ('h_remasking', 'vtmf_remasking', 'VerifiableRemaskingProtocol Mask/Prove -> Verify accepted', 'key, ciphertext, exponent, coins, digest'),
                        ('h_decryption', 'vtmf_decryption', 'two players: decryption share Prove -> Verify_Update accepted; Finalize opens to the message', 'both keys, message, all coins, digests')):
     PROTO('C03', _n, 'C03_vtmf.cc', _e, _d, _s)
+
+# ------------------------------------------------------------------ C05 (binding) on the VTMF
+def PROTO5(name, entry, desc, **kw):
+    PROTO('C05', name, 'C05_vtmf.cc', entry, desc, 'prover coins and secrets, the edited position (all transmitted values and public inputs), the replacement value in [-2p, 3p)', **kw)
+    HARNESSES[-1]['defines'] = dict(HARNESSES[-1]['defines'], H_COLLISION_FREE=1)
+    HARNESSES[-1]['assumptions'] = PROTO_ASSUME + ['hash is collision-free on the calls made (distinct inputs get distinct digests)']
+PROTO5('vtmf_nizk', 'h_t_nizk', 'key-share NIZK: one edited value => refused unless equivalent response; refused contribution leaves h unchanged')
+PROTO5('vtmf_cp', 'h_t_cp', 'CP proof: one edited transcript value or public input => refused unless equivalent response')
+PROTO5('vtmf_masking', 'h_t_masking', 'masking proof: one edited transcript value or card component => refused unless equivalent response')
